@@ -104,6 +104,18 @@ def driver(ctx, ops):
     return res
 
 
+def rules_legal_per_go(ctx, scripts):
+    """for each script: list (one entry per executed go) of the UCI texts of the rules-legal moves in the position the script's
+    position commands prescribe — computed by the Lean side alone (the engine's own board is not consulted)"""
+    res = driver(ctx, ["uci.golegal " + ";;".join(lines) for lines in scripts])
+    out = []
+    for (_m, sp) in res:
+        out.append([] if sp is None or sp == "" else [g.split() if g != "?" else None for g in sp.split("|")])
+    while len(out) < len(scripts):
+        out.append([])
+    return out
+
+
 def model_transcripts(ctx, scripts):
     ops = ["uci.run " + ";;".join(lines) for lines in scripts]
     res = driver(ctx, ops)
@@ -135,12 +147,8 @@ def step_transcripts(tier, seed, ctx, flavours=("mixed", "handshake", "noquit"),
             res["broken"].append("script generator failed: " + e)
             continue
         models = model_transcripts(ctx, [s for s, _ in scripts])
-        legal_ops = []
-        for _s, boards in scripts:
-            legal_ops += ["spec.legaluci " + b for b in boards]
-        legal = [s for (_m, s) in driver(ctx, legal_ops)] if legal_ops else []
-        li = 0
-        for (lines, boards), (mt, moc) in zip(scripts, models):
+        legal_groups = rules_legal_per_go(ctx, [s for s, _ in scripts])
+        for si, ((lines, boards), (mt, moc)) in enumerate(zip(scripts, models)):
             dist["scripts"] += 1
             has_quit = any(l.split()[:1] == ["quit"] for l in lines)
             dist["with_quit" if has_quit else "without_quit"] += 1
@@ -154,8 +162,7 @@ def step_transcripts(tier, seed, ctx, flavours=("mixed", "handshake", "noquit"),
             if key not in seen and (ngo > 0 or len(lines) > 3):
                 seen.add(key)
             out0, rc0 = runs[0]
-            my_legal = legal[li: li + len(boards)]
-            li += len(boards)
+            my_legal = legal_groups[si] if si < len(legal_groups) else []
             # exit status / termination (C16)
             if rc0 != 0:
                 res["violations"].append({"kind": "process-exit", "script": lines, "exit": rc0, "expected": 0, "stdout_tail": out0[-5:], "how": "printf of the script lines piped into the release binary"})
@@ -187,10 +194,11 @@ def step_transcripts(tier, seed, ctx, flavours=("mixed", "handshake", "noquit"),
             if len(bms) != ngo:
                 res["violations"].append({"kind": "bestmove-count", "script": lines, "go_commands": ngo, "bestmove_lines": bms})
             else:
-                for bm, lg in zip(bms, my_legal[:ngo]):
+                for bm, lgs in zip(bms, my_legal[:ngo]):
+                    if lgs is None:
+                        continue
                     res["spec_compared"] += 1
                     mv = bm.split()[1] if len(bm.split()) > 1 else ""
-                    lgs = (lg or "").split()
                     if (mv == "0000" and lgs) or (mv != "0000" and mv not in lgs):
                         res["violations"].append({"kind": "illegal-or-missing-bestmove", "script": lines, "bestmove": bm, "legal_moves_by_the_rules": lgs})
             if len(res["samples"]) < 3 and ngo > 0:
@@ -290,17 +298,12 @@ def step_timed(tier, seed, ctx):
     if scripts is None:
         res["broken"].append("script generator failed: " + e)
         return res
-    legal_ops = []
-    for _s, boards in scripts:
-        legal_ops += ["spec.legaluci " + b for b in boards]
-    legal = [s for (_m, s) in driver(ctx, legal_ops)] if legal_ops else []
-    li = 0
+    legal_groups = rules_legal_per_go(ctx, [s for s, _ in scripts])
     goes = 0
-    for lines, boards in scripts:
+    for si, (lines, boards) in enumerate(scripts):
         out, rc = run_engine(exe, lines)
         res["evaluations"] += 1
-        my_legal = legal[li: li + len(boards)]
-        li += len(boards)
+        my_legal = legal_groups[si] if si < len(legal_groups) else []
         upto = next((i for i, l in enumerate(lines) if l.split()[:1] == ["quit"]), len(lines))
         ngo = sum(1 for l in lines[:upto] if l.split()[:1] == ["go"])
         bms = [l for l in out if l.startswith("bestmove")]
@@ -310,11 +313,12 @@ def step_timed(tier, seed, ctx):
         if len(bms) != ngo:
             res["violations"].append({"kind": "bestmove-count", "script": lines, "go_commands": ngo, "bestmove_lines": bms})
             continue
-        for bm, lg in zip(bms, my_legal[:ngo]):
+        for bm, lgs in zip(bms, my_legal[:ngo]):
+            if lgs is None:
+                continue
             goes += 1
             res["spec_compared"] += 1
             mv = bm.split()[1] if len(bm.split()) > 1 else ""
-            lgs = (lg or "").split()
             if (mv == "0000" and lgs) or (mv != "0000" and mv not in lgs):
                 res["violations"].append({"kind": "illegal-or-missing-bestmove", "script": lines, "bestmove": bm, "legal_moves_by_the_rules": lgs})
     res["distinct_nontrivial"] = goes
@@ -440,6 +444,41 @@ def step_after_timed(tier, seed, ctx):
     return res
 
 
+def step_eof_during_search(tier, seed, ctx):
+    """C16 black-box: the whole script is written to stdin and stdin is closed AT ONCE, so the input ends while a search of some
+    hundred milliseconds is still running and commands are queued behind it: every command must still be answered, then exit 0."""
+    res = {"name": "blackbox-eof-during-search", "violations": [], "broken": [], "evaluations": 0, "distinct_nontrivial": 0, "samples": [], "distribution": {}, "spec_compared": 0}
+    exe, err = build_engine(ctx)
+    if exe is None:
+        res["broken"].append("real binary does not build from /repo: " + err)
+        return res
+    scripts = [["isready", "position startpos", "go depth 6", "isready", "uci"],
+               ["position startpos moves e2e4 e7e5", "go movetime 300", "isready", "xyzzy", "isready"],
+               ["uci", "position fen r1bqkbnr/pppp1ppp/2n5/4p3/4P3/5N2/PPPP1PPP/RNBQKB1R w KQkq - 2 3", "go depth 5", "go depth 2", "isready"]]
+    if tier != "quick":
+        scripts += [["position startpos", "go movetime 1200", "isready"], ["position startpos", "go depth 7", "quit", "isready"]]
+    for lines in scripts:
+        for enc in ("lf", "nofinal"):
+            out, rc = run_engine(exe, lines, timeout=120, encoding=enc)
+            res["evaluations"] += 1
+            res["spec_compared"] += 1
+            upto = next((i for i, l in enumerate(lines) if l.split()[:1] == ["quit"]), len(lines))
+            want_ready = sum(1 for l in lines[:upto] if l.split()[:1] == ["isready"])
+            want_best = sum(1 for l in lines[:upto] if l.split()[:1] == ["go"])
+            want_uciok = sum(1 for l in lines[:upto] if l.split()[:1] == ["uci"])
+            got_ready = sum(1 for l in out if l == "readyok")
+            got_best = sum(1 for l in out if l.startswith("bestmove"))
+            got_uciok = sum(1 for l in out if l == "uciok")
+            if rc != 0 or (got_ready, got_best, got_uciok) != (want_ready, want_best, want_uciok):
+                res["violations"].append({"kind": "commands-unanswered-when-input-ends-during-a-search", "script": lines, "stdin_encoding": enc, "exit": rc,
+                                          "expected (readyok, bestmove, uciok)": [want_ready, want_best, want_uciok], "got": [got_ready, got_best, got_uciok], "stdout_tail": out[-5:]})
+            elif len(res["samples"]) < 2:
+                res["samples"].append({"script": lines, "stdout_tail": out[-3:], "exit": rc})
+    res["distinct_nontrivial"] = len(scripts)
+    res["distribution"] = {"blackbox_eof_during_search": {"scripts": len(scripts), "encodings": ["lf", "nofinal"]}}
+    return res
+
+
 def step_clock_go(tier, seed, ctx):
     """C12 black-box: a go that names the mover's clock is answered before that clock would run out (plus a fixed tolerance),
     whatever else the command carries (increments, a depth cap after the clocks, the opponent's values) and however small the
@@ -555,7 +594,10 @@ def step_latency(tier, seed, ctx):
                 # watchdog: an engine that does not answer at all is killed (and reported) instead of blocking the check
                 wd = threading.Timer((t + bound_ms) / 1000.0 + 20.0, p.kill)
                 wd.start()
-                p.stdin.write("go movetime %d\n" % t)
+                # the budget is a budget however the command spells it: with a (non-binding) depth cap after or before it
+                forms = ["go movetime %d", "go movetime %d depth 60", "go depth 60 movetime %d", "go movetime %d"]
+                form = forms[(idx + len(sess) + t + len(fen)) % len(forms)]
+                p.stdin.write((form % t) + "\n")
                 p.stdin.flush()
                 got = None
                 while True:
@@ -570,9 +612,9 @@ def step_latency(tier, seed, ctx):
                 over = dt - t
                 worst_here = max(worst_here, over)
                 if got is None or over > bound_ms:
-                    viol = {"kind": "latency", "fen": fen, "session_movetimes_ms": sess, "go_index": idx, "movetime_ms": t, "answered_after_ms": round(dt, 1), "bound_ms": t + bound_ms, "answer": got}
+                    viol = {"kind": "latency", "fen": fen, "session_movetimes_ms": sess, "go_index": idx, "command": form % t, "movetime_ms": t, "answered_after_ms": round(dt, 1), "bound_ms": t + bound_ms, "answer": got}
                     break
-                samples.append({"fen": fen, "session_movetimes_ms": sess, "movetime_ms": t, "answered_after_ms": round(dt, 1), "answer": got})
+                samples.append({"fen": fen, "session_movetimes_ms": sess, "command": form % t, "movetime_ms": t, "answered_after_ms": round(dt, 1), "answer": got})
         finally:
             try:
                 p.stdin.write("quit\n")
